@@ -747,6 +747,10 @@ func kindMatches(in ssa.Instruction, kind string) bool {
 	case *ssa.Select:
 		return kind == "select"
 	case *ssa.Store:
+		if strings.HasPrefix(kind, "assign:") {
+			a, ok := x.Addr.(*ssa.Alloc)
+			return ok && a.Comment == strings.TrimPrefix(kind, "assign:")
+		}
 		return kind == "store" && isElemOrFieldStore(x)
 	case *ssa.MakeChan:
 		return kind == "makechan"
